@@ -314,10 +314,10 @@ def build_world_and_probes(rng, blocks, headers, unsized=False, nprobes=6, impl_
     return probes, world
 
 
-def gen_targs_case(rng):
+def gen_targs_case(rng, variant=None):
     """traits with lifetime / type / const parameters (bounds, defaults, ?Sized): blocks for
     generic and for concrete instantiations, families per instantiation"""
-    variant = rng.choice(['generic', 'concrete', 'lifetime', 'const', 'bounded', 'unsized_arg', 'mixed'])
+    variant = variant or rng.choice(['generic', 'concrete', 'lifetime', 'const', 'bounded', 'unsized_arg', 'mixed', 'default_omitted', 'nested_unsized'])
     tr = rng.choice(['D', 'D2'])
     def fam(trait_args, self_fmt, used, groups, tag0, extra_bounds=(), relaxed=None):
         out = []
@@ -362,6 +362,30 @@ def gen_targs_case(rng):
         tg = '<P: ?Sized>'
         blocks = fam('{T1}', '{T0}', ['T0', 'T1'], rng.sample(GROUPS, 2), 0, relaxed={'T1': rng.choice(['inline', 'where'])})
         targs_pool = ['X0', 'str', '[u8]']
+    elif variant == 'default_omitted':
+        # a defaulted (bounded) trailing parameter omitted at every use site, after a lifetime
+        # or const parameter
+        if rng.random() < 0.5:
+            tg = "<'a, P: 'a, Q: Tr0 = X0>"
+            blocks = fam("{L0}, {T1}", "&{L0} {T0}", ['L0', 'T0', 'T1'], rng.sample(GROUPS, 2), 0)
+            for b in blocks:
+                b.bounds.append(('{T1}', "__outlives__", {}, 'where'))
+            targs_pool = ["'static, X1", "'static, X0", "'static, X1, Vec<X0>"]
+        else:
+            tg = '<const N: usize, P, Q: Tr0 = X0>'
+            blocks = fam('2, {T1}', '{T0}', ['T0', 'T1'], rng.sample(GROUPS, 2), 0)
+            targs_pool = ['2, X1', '2, X0, Vec<X0>', '3, X1']
+        extra_world = 'impl Tr0 for X0 {}\nimpl Tr0 for Vec<X0> {}\n'
+    elif variant == 'nested_unsized':
+        # a ?Sized trait parameter; a general block `K<U> for T` next to the reflexive `K<T> for T`
+        tg = '<P: ?Sized>'
+        g = rng.sample(GROUPS, 3)
+        rel = lambda: rng.choice(['inline', 'where'])
+        b0 = Block(mk_slots(rng, ['T0', 'T1']), '{T1}', '{T0}', [('{T0}', tr, {'G': g[0]}, rel())], 'b0', relaxed=rng.choice([{'T1': rel()}, {'T1': rel()}, {'T0': rel(), 'T1': rel()}, {}]))
+        b1 = Block(mk_slots(rng, ['T0']), '{T0}', '{T0}', [('{T0}', tr, {'G': g[1]}, rel())], 'b1', relaxed={'T0': rel()})
+        b2 = Block(mk_slots(rng, ['T0']), 'X0', '{T0}', [('{T0}', tr, {'G': g[2]}, rel())], 'b2', relaxed=({'T0': rel()} if rng.random() < 0.5 else {}))
+        blocks = [b0, b1] + ([b2] if rng.random() < 0.5 else [])
+        targs_pool = ['X0', 'str', '[u8]', 'X1']
     else:
         tg = "<'a, P: 'a + ?Sized, const N: usize>"
         blocks = fam("{L0}, {T1}, {N0}", "&{L0} {T0}", ['L0', 'T0', 'T1', 'N0'], rng.sample(GROUPS, 2), 0, relaxed={'T1': 'where'})
@@ -373,12 +397,14 @@ def gen_targs_case(rng):
     for i, b in enumerate(blocks):
         b.tag = 'b%d' % i
     # probes: self types x argument lists
-    self_pool = ["&'static X0", "&'static X1", "&'static X2"] if variant in ('lifetime', 'mixed') else ['X0', 'X1', 'X2', 'Vec<X0>']
+    self_pool = ["&'static X0", "&'static X1", "&'static X2"] if variant in ('lifetime', 'mixed') or tg.startswith("<'a") else ['X0', 'X1', 'X2', 'Vec<X0>']
+    if variant == 'nested_unsized':
+        self_pool = ['X0', 'X1', 'str', '[u8]']
     probes = [(ta, ty) for ty in self_pool for ta in targs_pool]
     rng.shuffle(probes)
     probes = probes[:12]
     world = {}
-    for ty in ['X0', 'X1', 'X2', 'Vec<X0>']:
+    for ty in ['X0', 'X1', 'X2', 'Vec<X0>'] + (['str', '[u8]'] if variant == 'nested_unsized' else []):
         world[(ty, tr)] = {a: rng.choice(GROUPS) for a in TRAITS[tr]} if rng.random() < 0.85 else None
     return Case('targs:' + variant, 'K', tg, blocks, probes, world, extra_world=extra_world)
 
@@ -386,6 +412,8 @@ def gen_targs_case(rng):
 def gen_case(rng, kind):
     if kind == 'targs':
         return gen_targs_case(rng)
+    if kind.startswith('targs:'):
+        return gen_targs_case(rng, kind.split(':')[1])
     if kind == 'flat':
         h = rng.choice(['T', 'pair', 'vec', 'opt', 'box', 'arr', 'vecpair', 'w', 'dup', 'ref'])
         blocks = gen_family(rng, h, rng.choice([2, 2, 3]), 0)
